@@ -26,6 +26,9 @@ def jobs(tier):
                  horizon=400000))
     J.append(seq(len=3, keys=1, hmap=1, alpha_seq=1, nresize=8, big=1, init=64, minb=64, maxb=2048, mm=2, workers=8, horizon=800000))
     J.append(seq(len=3, keys=1, hmap=1, alpha_seq=1, nresize=8, big=1, init=64, minb=16, maxb=512, mm=1, workers=8, horizon=400000))
+    # chunk allocator with more than 1024 chunks requested (max / min > MAX_CHUNK_TABLE): the chunk size must be enlarged
+    J.append(seq(len=2, keys=1, hmap=1, alpha_seq=1, nresize=8, big=1, init=64, minb=1, maxb=2048, mm=1, workers=8, horizon=3000000))
+    J.append(seq(len=2, keys=1, hmap=1, alpha_seq=1, nresize=8, big=1, init=64, minb=2, maxb=2048, mm=1, custom=1, workers=8, horizon=3000000))
     J.append(seq(len=4 if q else 5, keys=4, hmap=1, alpha_seq=1, nresize=12, min_partition_order=0, workers=8))   # partitioned
     J.append(seq("0,0,1,0", len=3 if q else 4, keys=2, hmap=1, alpha_seq=1, nresize=12, min_partition_order=0, pthread_create_eagain=1,
                  workers=8))
